@@ -87,6 +87,7 @@ impl Monitor for C08 {
                     a.t
                 }
                 Action::Inject { delay, .. } => a.t + delay,
+                Action::UplinkRecvError { .. } => a.t,
                 Action::Reload { .. } => a.t + 1_000,
                 Action::Control { .. } => a.t,
                 Action::Stall { ms } => a.t + ms,
